@@ -395,11 +395,142 @@ FULL_REDUCERS = ("sum", "mean", "std", "var", "max", "min", "prod", "ptp", "medi
                  "nansum", "nanmean", "nanmax", "nanmin", "average")
 
 
+ALL_AXES_MOVERS = ("fftshift", "ifftshift", "flip", "roll", "flipud", "rot90")
+
+
+def _dispatch_constructs(ix, f, param, r_single, depth=0):
+    """(bad nodes, helper calls) of one function that may be handed a stack through `param`: all-axes reductions and all-axes
+    element moves of the (possibly stacked) value outside a branch that has established a single item"""
+    fn = _Fn(ix, f, [param])
+    bad = []
+
+    def rank_test(test):
+        """(asserts single-item rank?, asserts another rank?) for `len(p.shape) == k` / `p.ndim == k`"""
+        if isinstance(test, ast.Compare) and len(test.ops) == 1 and isinstance(test.ops[0], (ast.Eq, ast.NotEq)):
+            l, r_ = test.left, test.comparators[0]
+            if isinstance(l, ast.Constant):
+                l, r_ = r_, l
+            if isinstance(l, ast.Name) and l.id in fn.single and len(fn.single[l.id]) == 1:
+                l = fn.single[l.id][0]          # n_dims = p.ndim; if n_dims == 2: ...
+            txt = norm_text(l).replace(" ", "")
+            is_rank = txt in ("len(%s.shape)" % param, "%s.ndim" % param, "numpy.ndim(%s)" % param) or \
+                any(txt in ("len(%s.shape)" % t, "%s.ndim" % t) for t in fn.taint)
+            if is_rank and isinstance(r_, ast.Constant) and isinstance(r_.value, int):
+                eq = isinstance(test.ops[0], ast.Eq)
+                return (eq and r_.value == r_single), (eq and r_.value != r_single)
+        return False, False
+
+    def expr_constructs(expr, single):
+        if single:
+            return
+        clip_bounds = set()
+        for c in ast.walk(expr):
+            if isinstance(c, ast.Call) and isinstance(c.func, ast.Attribute) and c.func.attr == "clip":
+                args = c.args if not _is_module_chain(c.func.value) else c.args[1:]
+                if len(args) >= 2:
+                    for x in ast.walk(args[1]):
+                        clip_bounds.add(id(x))
+        for c in ast.walk(expr):
+            if not (isinstance(c, ast.Call) and isinstance(c.func, ast.Attribute) and c.func.attr in FULL_REDUCERS + ALL_AXES_MOVERS):
+                continue
+            if id(c) in clip_bounds and c.func.attr in ("max", "amax"):
+                continue
+            recv = c.func.value
+            if _is_module_chain(recv):
+                arr = c.args[0] if c.args else None
+                rest = c.args[1:]
+            else:
+                arr, rest = recv, c.args
+            if arr is None or not fn.tainted(arr):
+                continue
+            # one item selected from the stack: p[k] / p[k, ...]
+            if isinstance(arr, ast.Subscript) and not isinstance(arr.slice, (ast.Slice, ast.Tuple)):
+                continue
+            if c.func.attr in ALL_AXES_MOVERS:
+                n_pos = {"roll": 1}.get(c.func.attr, 0)        # roll(a, shift, axis): the shift is not an axis
+                has_axis = len(rest) > n_pos or any(k.arg in ("axis", "axes") and not (isinstance(k.value, ast.Constant) and k.value.value is None)
+                                                    for k in c.keywords)
+            else:
+                has_axis = bool(rest) or any(k.arg in ("axis", "axes") and not (isinstance(k.value, ast.Constant) and k.value.value is None)
+                                             for k in c.keywords)
+            if not has_axis:
+                bad.append((f, c))
+
+    # names that hold the whole stack (or something computed from all of it): the parameter, and every name assigned from
+    # an expression that uses such a name other than through a one-item selection x[k]
+    whole = {param}
+
+    def uses_whole(expr):
+        items = set()
+        for c in ast.walk(expr):
+            if isinstance(c, ast.Subscript) and isinstance(c.value, ast.Name) and c.value.id in whole and \
+                    not isinstance(c.slice, (ast.Slice, ast.Tuple)):
+                items.add(id(c.value))
+        return any(isinstance(c, ast.Name) and c.id in whole and id(c) not in items for c in ast.walk(expr))
+    changed = True
+    while changed:
+        changed = False
+        for st_ in ast.walk(f.node):
+            if isinstance(st_, ast.Assign) and uses_whole(st_.value):
+                for t_ in st_.targets:
+                    for nm_ in ([t_] if isinstance(t_, ast.Name) else [e_ for e_ in ast.walk(t_) if isinstance(t_, (ast.Tuple, ast.List)) and isinstance(e_, ast.Name)]):
+                        if nm_.id not in whole:
+                            whole.add(nm_.id)
+                            changed = True
+    helper_calls = []
+
+    def helper_constructs(expr, single):
+        """a repository helper handed the whole stack on a stack path is part of the function"""
+        if single or depth >= 3:
+            return
+        for c in ast.walk(expr):
+            if not isinstance(c, ast.Call) or not isinstance(c.func, (ast.Name, ast.Attribute)):
+                continue
+            b = ix.resolve_expr(f.module, c.func, ix.local_names(f))
+            if b is None or b.kind != "func" or (b.target.module.name, b.target.name) in DISPATCH or b.target.fq == f.fq:
+                continue
+            callee = b.target
+            params_ = [p_ for p_ in callee.params if not (p_ == "self" and callee.cls is not None)]
+            t_params = [params_[i_] for i_, a_ in enumerate(c.args) if i_ < len(params_) and uses_whole(a_)]
+            t_params += [k_.arg for k_ in c.keywords if k_.arg in params_ and uses_whole(k_.value)]
+            for tp in t_params:
+                helper_calls.append((callee, tp))
+
+    def block(stmts, single):
+        for st in stmts:
+            for c_ in ([st.test] if isinstance(st, (ast.If, ast.While)) else [x_ for x_ in ast.iter_child_nodes(st) if isinstance(x_, ast.expr)]):
+                helper_constructs(c_, single)
+            if isinstance(st, ast.If):
+                expr_constructs(st.test, single)
+                s1, other = rank_test(st.test)
+                block(st.body, single or s1)
+                block(st.orelse, single)
+            elif isinstance(st, (ast.For, ast.While)):
+                block(st.body, single)
+                block(st.orelse, single)
+            elif isinstance(st, (ast.With,)):
+                block(st.body, single)
+            elif isinstance(st, ast.Try):
+                block(st.body, single)
+                for h in st.handlers:
+                    block(h.body, single)
+            else:
+                for c in ast.iter_child_nodes(st):
+                    if isinstance(c, ast.expr):
+                        expr_constructs(c, single)
+    block(f.node.body, False)
+    for callee, tp in helper_calls:
+        b2, _ = _dispatch_constructs(ix, callee, tp, r_single, depth + 1)
+        bad.extend(b2)
+    return bad, helper_calls
+
+
 def check_dispatch(rep, ix):
-    """P3.per-item-reductions: in a function that accepts one item or a stack of items, a reduction of the (possibly stacked)
-    argument over *all* axes mixes the items of a stack; it is allowed only where the code has established that the argument
-    is a single item (inside `if p.ndim == r` / `len(p.shape) == r`), on one item selected from the stack (p[k]), or as the
-    never-binding upper bound of clip(x, lo, x.max())."""
+    """P3.per-item-reductions: in a function that accepts one item or a stack of items, a reduction (or an element move:
+    fftshift, flip, roll) of the (possibly stacked) argument over *all* axes mixes the items of a stack; it is allowed only
+    where the code has established that the argument is a single item (inside `if p.ndim == r` / `len(p.shape) == r`), on
+    one item selected from the stack (p[k]), or as the never-binding upper bound of clip(x, lo, x.max()).  Repository
+    helpers that are handed the whole stack on a stack path are analysed the same way (they are part of the function)."""
     n = 0
     for (mod, name), (param, r_single) in sorted(DISPATCH.items()):
         m = ix.modules.get(mod)
@@ -408,84 +539,21 @@ def check_dispatch(rep, ix):
             raise AnalysisError("C20.P3: stack-accepting function %s:%s vanished (table in sa/props/c20_batch.py)" % (mod, name))
         if param not in f.params:
             raise AnalysisError("C20.P3: %s has no parameter %s" % (f.fq, param))
-        fn = _Fn(ix, f, [param])
-        bad = []
-
-        def rank_test(test):
-            """(asserts single-item rank?, asserts another rank?) for `len(p.shape) == k` / `p.ndim == k`"""
-            if isinstance(test, ast.Compare) and len(test.ops) == 1 and isinstance(test.ops[0], (ast.Eq, ast.NotEq)):
-                l, r_ = test.left, test.comparators[0]
-                if isinstance(l, ast.Constant):
-                    l, r_ = r_, l
-                if isinstance(l, ast.Name) and l.id in fn.single and len(fn.single[l.id]) == 1:
-                    l = fn.single[l.id][0]          # n_dims = p.ndim; if n_dims == 2: ...
-                txt = norm_text(l).replace(" ", "")
-                is_rank = txt in ("len(%s.shape)" % param, "%s.ndim" % param, "numpy.ndim(%s)" % param) or \
-                    any(txt in ("len(%s.shape)" % t, "%s.ndim" % t) for t in fn.taint)
-                if is_rank and isinstance(r_, ast.Constant) and isinstance(r_.value, int):
-                    eq = isinstance(test.ops[0], ast.Eq)
-                    return (eq and r_.value == r_single), (eq and r_.value != r_single)
-            return False, False
-
-        def expr_constructs(expr, single):
-            if single:
-                return
-            clip_bounds = set()
-            for c in ast.walk(expr):
-                if isinstance(c, ast.Call) and isinstance(c.func, ast.Attribute) and c.func.attr == "clip":
-                    args = c.args if not _is_module_chain(c.func.value) else c.args[1:]
-                    if len(args) >= 2:
-                        for x in ast.walk(args[1]):
-                            clip_bounds.add(id(x))
-            for c in ast.walk(expr):
-                if not (isinstance(c, ast.Call) and isinstance(c.func, ast.Attribute) and c.func.attr in FULL_REDUCERS):
-                    continue
-                if id(c) in clip_bounds and c.func.attr in ("max", "amax"):
-                    continue
-                recv = c.func.value
-                if _is_module_chain(recv):
-                    arr = c.args[0] if c.args else None
-                    rest = c.args[1:]
-                else:
-                    arr, rest = recv, c.args
-                if arr is None or not fn.tainted(arr):
-                    continue
-                # one item selected from the stack: p[k] / p[k, ...]
-                if isinstance(arr, ast.Subscript) and not isinstance(arr.slice, (ast.Slice, ast.Tuple)):
-                    continue
-                has_axis = bool(rest) or any(k.arg in ("axis", "axes") and not (isinstance(k.value, ast.Constant) and k.value.value is None)
-                                             for k in c.keywords)
-                if not has_axis:
-                    bad.append(c)
-
-        def block(stmts, single):
-            for st in stmts:
-                if isinstance(st, ast.If):
-                    expr_constructs(st.test, single)
-                    s1, other = rank_test(st.test)
-                    block(st.body, single or s1)
-                    block(st.orelse, single)
-                elif isinstance(st, (ast.For, ast.While)):
-                    block(st.body, single)
-                    block(st.orelse, single)
-                elif isinstance(st, (ast.With,)):
-                    block(st.body, single)
-                elif isinstance(st, ast.Try):
-                    block(st.body, single)
-                    for h in st.handlers:
-                        block(h.body, single)
-                else:
-                    for c in ast.iter_child_nodes(st):
-                        if isinstance(c, ast.expr):
-                            expr_constructs(c, single)
-        block(f.node.body, False)
+        bad, helpers = _dispatch_constructs(ix, f, param, r_single)
         n += 1
-        for c in bad:
-            rep.violation("P3.per-item-reductions", "%s: %s" % (f.fq, norm_text(c)[:70]),
-                          "`%s` reduces the argument over all axes outside a single-item branch: for a stack of items the statistic mixes the "
-                          "items, so item k of the result is not what the single-item call returns" % norm_text(c)[:70], f.where(c))
+        seen = set()
+        for g, c in bad:
+            if id(c) in seen:
+                continue
+            seen.add(id(c))
+            via = "" if g is f else " (in %s, which is handed the whole stack)" % g.name
+            rep.violation("P3.per-item-reductions", "%s: %s%s" % (f.fq, norm_text(c)[:70], via),
+                          "`%s` acts on the argument over all axes outside a single-item branch%s: for a stack of items it mixes (or moves "
+                          "elements between) the items, so item k of the result is not what the single-item call returns"
+                          % (norm_text(c)[:70], via), g.where(c))
         if not bad:
-            rep.ok("P3.per-item-reductions", f.fq, "no all-axes reduction of the stacked argument outside a single-item branch")
+            rep.ok("P3.per-item-reductions", f.fq, "no all-axes reduction or element move of the stacked argument outside a single-item branch"
+                   + (" (helpers handed the stack: %s)" % sorted(set(h.name for h, t in helpers)) if helpers else ""))
     return n
 
 
